@@ -166,6 +166,9 @@ struct TxRec {
 /// returns the op index of a task panic that the D3 cause predicate explains (a `Written` event
 /// was overflow-discarded earlier, which leaves the `written` counters too high)
 pub fn check(hdr: &str, lines: &[String], trace: &[(String, Vec<String>)], mon: &mut dyn Write) -> Option<usize> {
+    // `disable` (the application stops and restarts communications) ends the session like a link error does
+    let mapped: Vec<(String, Vec<String>)> = trace.iter().map(|(o, r)| (if o == "disable" { "cut".to_string() } else { o.clone() }, r.clone())).collect();
+    let trace: &[(String, Vec<String>)] = &mapped;
     // annotations (`@wf`, `@reject …`) attach to the NEXT op
     let mut ann: Vec<Vec<String>> = Vec::new();
     {
